@@ -115,7 +115,7 @@ pub fn run(args: &[String]) {
             for i in 0..n {
                 let ents = match i % 5 { 0 => vec![("C".to_string(), 0, 6), ("H".to_string(), 0, 12), ("O".to_string(), 0, 6)],
                                          1 => vec![("K".to_string(), 0, 300)],
-                                         2 => vec![("C".to_string(), 0, 2)],
+                                         2 => if i % 10 == 2 { vec![("Cl".to_string(), 0, 2)] } else { vec![("C".to_string(), 0, 2)] },
                                          _ => { let mut e = gen_comp(&mut rng, &faithful, 4, 400); if e.iter().all(|x| x.2 == 0) { e[0].2 = 2; } e } };
                 let reqs: Vec<Req> = match i % 3 {
                     0 => vec![Req::I32(-3), Req::I32(-1), Req::I32(0), Req::I32(1), Req::I32(2), Req::I32(3), Req::I32(rng.range(4, 320) as i32),
